@@ -595,7 +595,9 @@ where
     }
 }
 
-pub(crate) fn escape_attr(value: &str) -> Cow<'_, str> {
+/// Escapes a string so that it can be written between the double quotes of an HTML
+/// attribute value.
+pub fn escape_attr(value: &str) -> Cow<'_, str> {
     html_escape::encode_double_quoted_attribute(value)
 }
 
